@@ -322,6 +322,102 @@ fn many_body(c: &ManyCase, rec: &mut crate::core::Rec) -> crate::core::CaseResul
 }
 
 // ---------------------------------------------------------------------------------------------
+// names inside RDATA: the statement speaks of "a name", not of owner names; the encoder chooses a
+// name encoding per RDATA type (compressible, not compressible, the DNSSEC-canonical family), and
+// each of them must hand the name back as it went in when a record is written the ordinary way
+
+#[derive(Clone, Debug, Serialize, Deserialize)]
+struct RdataNameCase {
+    /// 0 NS, 1 CNAME, 2 PTR, 3 MX, 4 SOA (mname, rname), 5 SRV, 6 NAPTR, 7 ANAME
+    kind: u8,
+    owner: MName,
+    name: MName,
+    name2: MName,
+    /// octets before the record (message offset)
+    pad: u16,
+    /// an earlier record at the same owner naming `name` as well (compression candidates exist)
+    twice: bool,
+}
+
+fn rdata_name_case() -> impl Strategy<Value = RdataNameCase> {
+    (0u8..8, names::related_fq_pool(4), any::<u32>(), prop_oneof![4 => 0u16..40, 1 => 12u16..600, 1 => 16_300u16..16_400], any::<bool>()).prop_map(|(kind, pool, bits, pad, twice)| {
+        let pick = |k: u32| pool[(bits >> k) as usize % pool.len()].clone();
+        RdataNameCase { kind, owner: pick(0), name: pick(8), name2: pick(16), pad, twice }
+    })
+}
+
+fn rdata_name_body(c: &RdataNameCase, rec: &mut crate::core::Rec) -> crate::core::CaseResult {
+    use hickory_proto::rr::rdata::{ANAME, CNAME, MX, NAPTR, NS, PTR, SOA, SRV};
+    use hickory_proto::rr::{RData, Record};
+    let (n1, n2) = (c.name.to_name(), c.name2.to_name());
+    let (data, label) = match c.kind {
+        0 => (RData::NS(NS(n1.clone())), "NS"),
+        1 => (RData::CNAME(CNAME(n1.clone())), "CNAME"),
+        2 => (RData::PTR(PTR(n1.clone())), "PTR"),
+        3 => (RData::MX(MX::new(10, n1.clone())), "MX"),
+        4 => (RData::SOA(SOA::new(n1.clone(), n2.clone(), 1, 2, 3, 4, 5)), "SOA"),
+        5 => (RData::SRV(SRV::new(1, 2, 53, n1.clone())), "SRV"),
+        6 => (RData::NAPTR(NAPTR::new(1, 2, b"u".to_vec().into_boxed_slice(), b"E2U+sip".to_vec().into_boxed_slice(), b"".to_vec().into_boxed_slice(), n1.clone())), "NAPTR"),
+        _ => (RData::ANAME(ANAME(n1.clone())), "ANAME"),
+    };
+    let record = Record::from_rdata(c.owner.to_name(), 300, data);
+    let mut buf: Vec<u8> = Vec::new();
+    let mut enc = BinEncoder::new(&mut buf);
+    enc.emit_slice(&vec![0x40u8; c.pad as usize]).map_err(|e| crate::core::Fail::new("harness", format!("pad: {e}")))?;
+    if c.twice {
+        if let Err(e) = record.emit(&mut enc) {
+            vfail!("emit-failed", "emit of a valid {label} record failed: {e}");
+        }
+    }
+    let start = enc.len();
+    if let Err(e) = record.emit(&mut enc) {
+        vfail!("emit-failed", "emit of a valid {label} record failed: {e}");
+    }
+    drop(enc);
+    let mut dec = BinDecoder::new(&buf).clone(start as u16);
+    let back = match Record::read(&mut dec) {
+        Ok(r) => r,
+        Err(e) => vfail!("wire-record-unreadable", "{label} record {} -> {} emitted at offset {start} does not decode: {e}", c.owner.show(), c.name.show()),
+    };
+    let got: Vec<Name> = match &back.data {
+        RData::NS(x) => vec![x.0.clone()],
+        RData::CNAME(x) => vec![x.0.clone()],
+        RData::PTR(x) => vec![x.0.clone()],
+        RData::MX(x) => vec![x.exchange.clone()],
+        RData::SOA(x) => vec![x.mname.clone(), x.rname.clone()],
+        RData::SRV(x) => vec![x.target.clone()],
+        RData::NAPTR(x) => vec![x.replacement.clone()],
+        RData::ANAME(x) => vec![x.0.clone()],
+        other => vfail!("wire-record-changed-type", "{label} record decoded as {}", other.record_type()),
+    };
+    let want: Vec<&MName> = if c.kind == 4 { vec![&c.name, &c.name2] } else { vec![&c.name] };
+    vensure!(got.len() == want.len(), "harness", "field count");
+    let owner_back = MName::from_name(&back.name);
+    vensure!(owner_back.labels == c.owner.labels, "wire-roundtrip-changed-name", "owner of a {label} record: emitted {} at offset {start}, decoded {}", c.owner.show(), owner_back.show());
+    for (g, w) in got.iter().zip(&want) {
+        let gm = MName::from_name(g);
+        vensure!(
+            gm.labels == w.labels,
+            "wire-roundtrip-changed-rdata-name",
+            "name inside {label} RDATA (record at offset {start}{}): emitted {}, decoded {}",
+            if c.twice { ", second of two equal records" } else { "" },
+            w.show(),
+            gm.show()
+        );
+        check_limits(g, "from-wire-rdata")?;
+    }
+    rec.class(format!("rdata:{label}"));
+    if want.iter().any(|w| w.labels.iter().any(|l| l.iter().any(|b| b.is_ascii_uppercase()))) {
+        rec.class("rdata-name:has-upper-case");
+        rec.nontrivial();
+        if rec.wants_note() {
+            rec.note(format!("{label} {} -> {}", c.owner.show(), c.name.show()));
+        }
+    }
+    Ok(())
+}
+
+// ---------------------------------------------------------------------------------------------
 // constructor programs
 
 #[derive(Clone, Debug, Serialize, Deserialize)]
@@ -707,6 +803,7 @@ pub fn check() -> Option<Check> {
 
     let wire = prop("wire_roundtrip", 60_000, 2_000_000, |_| wire_case(), wire_body);
     let wire_many = prop("wire_many_names", 6_000, 200_000, |_| many_case(), many_body);
+    let wire_rdata = prop("wire_rdata_names", 60_000, 2_000_000, |_| rdata_name_case(), rdata_name_body);
 
     let text = prop(
         "text_roundtrip",
@@ -825,11 +922,11 @@ pub fn check() -> Option<Check> {
     Some(Check {
         id: "C04",
         level: "exploration",
-        rule: "names: 0..127 labels of arbitrary octets (class mix: LDH, _srv, *, octets around the letter ranges, 0x00/0x80-0xFF, 63-octet labels, names packed to 250..255 wire octets, 100+ one-octet labels); pairs/triples derived by case flips, bit-5 flips of non-letters, one-octet edits, label insert/drop/split/merge, shared suffixes. Non-trivial = distinct case AND (equal-mod-case but not identical, or exactly one differing octet, or mixed FQDN flags, or first difference in a non-rightmost label / ancestor relation, or a length-boundary name, or the wire form used a compression pointer or lies at/after offset 0x3FFF, or a constructor program reached a length limit). wire_many_names: 40-320 names (a pool of related names, most with a fresh leading label, letter case chosen per name) written into ONE encoder, with compression on for all or all but every 6th-9th, optionally after 16 KB of padding; each must read back with its own octets at its own offset; non-trivial = more than 64 names with compression on and at least one pointer",
+        rule: "names: 0..127 labels of arbitrary octets (class mix: LDH, _srv, *, octets around the letter ranges, 0x00/0x80-0xFF, 63-octet labels, names packed to 250..255 wire octets, 100+ one-octet labels); pairs/triples derived by case flips, bit-5 flips of non-letters, one-octet edits, label insert/drop/split/merge, shared suffixes. Non-trivial = distinct case AND (equal-mod-case but not identical, or exactly one differing octet, or mixed FQDN flags, or first difference in a non-rightmost label / ancestor relation, or a length-boundary name, or the wire form used a compression pointer or lies at/after offset 0x3FFF, or a constructor program reached a length limit). wire_many_names: 40-320 names (a pool of related names, most with a fresh leading label, letter case chosen per name) written into ONE encoder, with compression on for all or all but every 6th-9th, optionally after 16 KB of padding; each must read back with its own octets at its own offset; non-trivial = more than 64 names with compression on and at least one pointer. wire_rdata_names: a name inside the RDATA of NS, CNAME, PTR, MX, SOA (both), SRV, NAPTR or ANAME, in a record written the ordinary way at some message offset, alone or after an equal record; owner and RDATA names must read back with their own octets; non-trivial = an RDATA name with an upper-case letter",
         assumptions: vec![
             "text clause asserted only for the alphabet the statement names (letters, digits, hyphen not leading, underscore, escaped dot, leading asterisk); it is asserted for both text forms: to_ascii()/from_ascii() must give back the identical name, Display/FromStr (which turns valid ACE labels into Unicode and may lower-case) must parse and give an equal name",
             "hash consistency checked with two fixed hashers",
         ],
-        subs: vec![eq_hash, order_pairs, order_sort, order_triples, wire, wire_many, text, constructors, small],
+        subs: vec![eq_hash, order_pairs, order_sort, order_triples, wire, wire_many, wire_rdata, text, constructors, small],
     })
 }
